@@ -30,7 +30,7 @@ def numel(shape):
 def item_py(it, as_numpy=False):
     k = it[0]
     if k == "int":
-        return it[1]
+        return np.int64(it[1]) if as_numpy else it[1]          # numpy integers are ints for indexing
     if k == "slice":
         return slice(it[1], it[2], it[3])
     if k == "none":
